@@ -140,4 +140,18 @@ theorem short_picture_ends_at_next_start_code (s : State) (hr : s.running = 0) (
         .ok (commitPic s r.1 r.2, ⟨zeros k ++ (startCode ++ (natBits 5 0 ++ y)), pos + ((cut n p).bits s).length⟩) :=
   Lemmas.ShortAtStart.decode_pic_short_at_start s hr hstd p w h hv n k hk y pos hwin
 
+open H263V.State H263V.Lemmas.StreamAny H263V.Lemmas.TruncatedAny H263V.Lemmas.SorensonPicture H263V.Lemmas.PictureRoundTrip
+  H263V.Spec.Syntax H263V.Spec.Vlc in
+/-- The same with the tail written as a picture: a short picture, fewer than eight zero bits, then the next standard-mode picture
+`q` (PTYPE or PLUSPTYPE header, encoded for any decoder state `s'`) and anything behind it.  The first call commits the short
+picture and leaves the reader in front of the stuffing and `q`; `one_call_one_picture_any` then decodes `q` from there when `q`
+is valid in the new state. -/
+theorem short_picture_then_next_picture (s : State) (hr : s.running = 0) (hstd : s.opts.sorenson = false) (p : Pic) (w h : Nat)
+    (hv : p.Valid s w h) (n k : Nat) (hk : k ≤ 7) (s' : State) (q : Pic) (hq : ∀ x, q ≠ .sor x) (rest : Bits) (pos : Nat)
+    (hwin : k ≤ realignmentBits ⟨[], pos + ((cut n p).bits s).length⟩ + 1) :
+    decodeNextPicture s ⟨(cut n p).bits s ++ (zeros k ++ (q.bits s' ++ rest)), pos⟩ =
+      semCore s (p.picture s) (p.mbs.take n) >>= fun r =>
+        .ok (commitPic s r.1 r.2, ⟨zeros k ++ (q.bits s' ++ rest), pos + ((cut n p).bits s).length⟩) :=
+  Lemmas.ShortAtStart.decode_pic_short_then_next s hr hstd p w h hv n k hk s' q hq rest pos hwin
+
 end H263V.Thm.C15
